@@ -49,7 +49,9 @@ CiRules == ReleaseRules("ci.release") \cup
   R("ci.base_product", "version", "none", "reject"), R("ci.base_product", "type", "unknown", "reject"),
   R("ci.base_product", "type", "upper", "reject"), R("ci.base_product", "type", "none", "reject"),
   R("ci.variant", "id", "dash", "reject"), R("ci.variant", "id", "empty", "reject"), R("ci.variant", "id", "space", "reject"),
-  R("ci.variant", "id", "none", "reject"), R("ci.variant", "id", "nl_aligned", "reject"),      \* id and uid both end in a line feed
+  \* the id gets a suffix outside [a-zA-Z0-9] while UID, table key and the UIDs below stay aligned with it:
+  \* a line feed; a non-ASCII letter and a full-width digit
+  R("ci.variant", "id", "none", "reject"), R("ci.variant", "id", "nl_aligned", "reject"), R("ci.variant", "id", "unicode_aligned", "reject"),
   R("ci.variant", "uid", "none", "reject"), R("ci.variant", "uid", "int", "reject"),
   R("ci.variant", "uid", "misaligned", "reject"),
   R("ci.variant", "name", "empty", "reject"), R("ci.variant", "name", "none", "reject"), R("ci.variant", "name", "int", "reject"),
